@@ -6,7 +6,8 @@
 (*   runs      sequence of [range |-> <<start, stop, step>> (micro-dB), powers |-> reported powers,               *)
 (*                          steps |-> sequence of step records]                                                  *)
 (*                          outside0/outside1 |-> digest of every setting but the path's amplifiers, before/after] *)
-(*   step record: [dp, amps |-> sequence of [gain, dp, out] along the path, gsnr]   (all micro-dB)               *)
+(*   step record: [dp, amps |-> sequence of [gain, dp, voa, out] along the path, gsnr]   (all micro-dB);          *)
+(*                dp = offset before the output VOA, voa = output VOA, out = channel power after the VOA           *)
 (* Monitor-shaped: every case is judged by every clause; the verdict names the failing clauses.                  *)
 EXTENDS GnpyBase, TLC, Json, IOUtils
 
@@ -22,9 +23,10 @@ Expand(r) == LET n == IF r[3] = 0 THEN 1 ELSE AbsI((r[2] - r[1]) \div r[3]) + 1
              IN [i \in 1..n |-> IF n = 1 THEN r[1] ELSE r[1] + ((i - 1) * (r[2] - r[1])) \div (n - 1)]
 EffRange(c, run) == IF c.mode = 1 THEN Expand(run.range) ELSE <<0>>
 
-SameAmp(a, b) == Within(a.gain, b.gain, Tol) /\ Within(a.dp, b.dp, Tol) /\ Within(a.out, b.out, Tol)
+SameAmp(a, b) == Within(a.gain, b.gain, Tol) /\ Within(a.dp, b.dp, Tol) /\ Within(a.voa, b.voa, Tol) /\ Within(a.out, b.out, Tol)
 SameSettings(s, t) == Len(s.amps) = Len(t.amps)
-                      /\ \A a \in 1..Len(s.amps) : Within(s.amps[a].gain, t.amps[a].gain, Tol) /\ Within(s.amps[a].dp, t.amps[a].dp, Tol)
+                      /\ \A a \in 1..Len(s.amps) : /\ Within(s.amps[a].gain, t.amps[a].gain, Tol) /\ Within(s.amps[a].dp, t.amps[a].dp, Tol)
+                                                  /\ Within(s.amps[a].voa, t.amps[a].voa, Tol)
 SameStep(s, t) == Len(s.amps) = Len(t.amps) /\ (\A a \in 1..Len(s.amps) : SameAmp(s.amps[a], t.amps[a]))
                   /\ Within(s.gsnr, t.gsnr, Tol)
 
@@ -40,7 +42,7 @@ Clauses(c) ==
       THEN {} ELSE {"PowersReported"})
      \cup (IF c.mode = 0 /\ (\E r \in R : Len(St(r)) # 1) THEN {"GainModeHasNoSweep"} ELSE {})
      \cup (IF \A r \in Multi : \A i \in 1..Len(St(r)) : \A a \in 1..Len(St(r)[i].amps) :
-                 Within(St(r)[i].amps[a].out, c.pref + St(r)[i].dp + St(r)[i].amps[a].dp, BudgetTol)
+                 Within(St(r)[i].amps[a].out, c.pref + St(r)[i].dp + St(r)[i].amps[a].dp - St(r)[i].amps[a].voa, BudgetTol)
            THEN {} ELSE {"BudgetClosedEachStep"})
      \cup (IF \A r1, r2 \in Multi : \A i \in 1..Len(St(r1)) : \A j \in 1..Len(St(r2)) :
                  Within(St(r1)[i].dp, St(r2)[j].dp, Tol) => SameStep(St(r1)[i], St(r2)[j])
